@@ -39,6 +39,11 @@ def run(prop, tier):
         import props_bcase
 
         props_bcase.extra(res, tier, prop)
+    if prop in ("C01", "C02"):
+        # line-structure and multi-line structure families: model vs real classes, witnesses, defect search
+        import layerb_extra
+
+        layerb_extra.extra(res, tier, prop)
     if prop == "C03":
         # layer B families with their own synthetic + harvested correspondence (evidence under coverage["layer_b_*"])
         for modname in ("props_bind", "props_bws"):
@@ -92,10 +97,8 @@ def replay(prop, path):
         print(json.dumps(d, indent=1)[:3000])
         return 0
     job = d["input"]
-    if job.get("via") == "props_bcase":
-        import props_bcase
-
-        return props_bcase.replay(prop, path)
+    if job.get("via") in ("props_bcase", "props_blines", "props_bmulti"):
+        return __import__(job["via"]).replay(prop, path)
     found, exc = rp.show(job, None)
     bad = [(st.rule, r) for st, r in found if r[prop.lower()] != "ok"]
     for rule, r in bad:
